@@ -221,3 +221,118 @@ Theorem C14_history_reading : forall c o,
   h_spec_ok c o = true -> answers (map (dedup triple_eqb) (h_graphs c)) (h_ops c) o.
 Proof. exact h_spec_reading. Qed.
 Print Assumptions C14_history_reading.
+
+(* ------------------------------------------------------------------ *)
+(* Round 3: the canonicaliser itself (Iso/Canon.v = rdflib/compare.py after the
+   fix: commits 66dfcd58, e4e9757a and fef10715, over an abstract hash function). *)
+From RV Require Import Iso.Canon Iso.CanonProofs Iso.CanonEquiv.
+
+(* What canonical_triples returns is the input relabelled ONE-TO-ONE: every
+   colouring that reaches it came out of _refine, whose final merge leaves
+   pairwise different colour hashes.  No assumption on the hash. *)
+Theorem C14_canonical_triples_relabels :
+  forall hashfunc n3 hexs decs tstr g fuel cts,
+  m_canonical_triples hashfunc n3 hexs decs tstr g fuel = Some cts ->
+  exists lab : N -> str,
+    (forall x y, In x (blanks g) -> In y (blanks g) -> lab x = lab y -> x = y)
+    /\ cts = map (relab_t lab) g.
+Proof. exact canonical_triples_relabels. Qed.
+Print Assumptions C14_canonical_triples_relabels.
+
+(* SOUNDNESS at full strength: the modelled compare.isomorphic (and
+   IsomorphicGraph.__eq__) never answers True on non-isomorphic graphs - every
+   pair of graphs, any fuel, blank predicates included - under MA3 (a sum of
+   hashes determines the multiset of hashed strings) and an injective rendering
+   of canonical triples. *)
+Theorem C14_model_isomorphic_sound :
+  forall (hashfunc : str -> N) n3 hexs decs (tstr : ctriple -> str),
+  (forall l1 l2 : list str, sum_h hashfunc l1 = sum_h hashfunc l2 -> Permutation.Permutation l1 l2) ->
+  (forall a b, tstr a = tstr b -> a = b) ->
+  forall fuel g1 g2,
+    (m_isomorphic hashfunc n3 hexs decs tstr fuel g1 g2 = Some true -> iso g1 g2)
+    /\ (m_iso_eq hashfunc n3 hexs decs tstr fuel g1 g2 = Some true -> iso g1 g2).
+Proof.
+  intros hf n3 hx dc ts H1 H2 fuel g1 g2. split.
+  - now apply model_isomorphic_sound.
+  - now apply model_iso_eq_sound.
+Qed.
+Print Assumptions C14_model_isomorphic_sound.
+
+(* INVARIANCE of refinement: for a one-to-one renaming f and a graph without
+   blank predicates, _initial_color and _refine commute with f - the colouring
+   of the renamed graph is the renamed colouring (same hashes, same order), so
+   isomorphic graphs get corresponding partitions. *)
+Theorem C14_refine_invariant :
+  forall hashfunc n3 hexs decs (f : N -> N) g,
+  (forall x y, f x = f y -> x = y) ->
+  (forall t, In t g -> is_bnode (pred_of t) = false) ->
+  m_initial_color hashfunc n3 hexs decs (rename_g f g) = map (rc f) (m_initial_color hashfunc n3 hexs decs g)
+  /\ (forall fuel coloring sequence,
+        m_refine hashfunc n3 hexs decs (rename_g f g) fuel (map (rc f) coloring) (map (rc f) sequence)
+        = option_map (map (rc f)) (m_refine hashfunc n3 hexs decs g fuel coloring sequence))
+  /\ (forall fuel,
+        option_map (map nodes) (let c0 := m_initial_color hashfunc n3 hexs decs (rename_g f g) in
+                                m_refine hashfunc n3 hexs decs (rename_g f g) fuel c0 c0)
+        = option_map (map (fun c => map (rename f) (nodes c)))
+                     (let c0 := m_initial_color hashfunc n3 hexs decs g in
+                      m_refine hashfunc n3 hexs decs g fuel c0 c0)).
+Proof.
+  intros hf n3 hx dc f g Hf Hp. split; [|split].
+  - now apply initial_color_rc.
+  - intros. now apply refine_rc.
+  - intros. now apply refined_partition_invariant.
+Qed.
+Print Assumptions C14_refine_invariant.
+
+(* COMPLETENESS, partial: on the class where refinement alone ends in a
+   discrete colouring (no branching) a relabelled copy gets literally the same
+   canonical triples, hence isomorphic() is True - for copies that keep the
+   order of triples and of set iteration.
+   MISSING for full completeness (stated, not proved):
+   (L-order) the multiset of canonical triples does not depend on the order in
+     which the triples of the graph and the members of Python sets are visited;
+   (L-traces) when _refine does not end discrete, _traces returns a leaf whose
+     canonical triples are invariant under isomorphism.  (L-traces) was FALSE of
+     the code before fix fef10715 (ties between non-automorphic candidates with
+     equal colour scores were resolved by iteration order, finding FC14c); the
+     repaired _traces keeps tying candidates, prunes only by verified
+     automorphisms and returns the leaf with the smallest certificate, which is
+     what the standard argument needs (the set of leaf certificates is
+     invariant, so its minimum is) - that argument is not formalised here. *)
+Theorem C14_complete_discrete_partial :
+  forall hashfunc n3 hexs decs tstr (f : N -> N) g fuel,
+  (forall x y, f x = f y -> x = y) ->
+  (forall t, In t g -> is_bnode (pred_of t) = false) ->
+  refine_decides hashfunc n3 hexs decs g fuel ->
+  (m_canonical_triples hashfunc n3 hexs decs tstr (rename_g f g) fuel = m_canonical_triples hashfunc n3 hexs decs tstr g fuel)
+  /\ (forall cts, m_canonical_triples hashfunc n3 hexs decs tstr g fuel = Some cts ->
+        m_isomorphic hashfunc n3 hexs decs tstr fuel g (rename_g f g) = Some true).
+Proof.
+  intros hf n3 hx dc ts f g fuel Hf Hp Hd. split.
+  - now apply canonical_triples_label_independent_discrete.
+  - intros cts Hc. eapply model_complete_discrete_sameorder; eauto.
+Qed.
+Print Assumptions C14_complete_discrete_partial.
+
+(* LABEL INDEPENDENCE of the whole canonicaliser (refinement AND the
+   individualisation search with its verified-automorphism pruning): a copy of a
+   graph whose blank nodes are renamed one-to-one - keeping the order of triples
+   and of set iteration - gets literally the same canonical triples, so the
+   modelled isomorphic() answers True (when it answers at all: None is fuel
+   exhaustion or a Python exception).  Graphs without blank predicates (with
+   them the statement is false: finding FC14a).
+   What separates this from full completeness is ORDER independence only
+   (lemmas L-order / L-traces above). *)
+Theorem C14_label_independent_partial :
+  forall hashfunc n3 hexs decs tstr (f : N -> N) g fuel,
+  (forall x y, f x = f y -> x = y) ->
+  (forall t, In t g -> is_bnode (pred_of t) = false) ->
+  (m_canonical_triples hashfunc n3 hexs decs tstr (rename_g f g) fuel = m_canonical_triples hashfunc n3 hexs decs tstr g fuel)
+  /\ (forall cts, m_canonical_triples hashfunc n3 hexs decs tstr g fuel = Some cts ->
+        m_isomorphic hashfunc n3 hexs decs tstr fuel g (rename_g f g) = Some true).
+Proof.
+  intros hf n3 hx dc ts f g fuel Hf Hp. split.
+  - now apply canonical_triples_label_independent.
+  - intros cts Hc. eapply model_complete_sameorder; eauto.
+Qed.
+Print Assumptions C14_label_independent_partial.
